@@ -59,13 +59,16 @@ Base(id, n) ==
     [] id \in 9..14 -> SizedBase(id, n)
     [] id = 15 -> [kind |-> "sign1", ext |-> <<>>, payload |-> <<1, 2>>, slots |-> <<n>>,          \* countersignature lists of 3, 1 and 4 entries
                    tree |-> Arr(<<BstrW(Map(<<AlgP(n)>>)), Map(<<<<UInt(7), Arr(<<CsA, CsB, CsA>>)>>, <<UInt(11), Arr(<<CsB>>)>>>>), Bstr(<<1, 2>>), Bstr(Fill(1, n))>>)]
+    [] id = 17 -> [kind |-> "sign1", ext |-> <<>>, payload |-> Seq0(32), slots |-> <<n>>,      \* a hash envelope (258 = SHA-256, 259, 260) from a peer
+                   tree |-> Arr(<<BstrW(Map(<<AlgP(n), <<UInt(258), NInt(15)>>, <<UInt(259), Tstr(<<97, 47, 98>>)>>, <<UInt(260), Tstr(<<108>>)>>>>)),
+                                  Map(<<<<UInt(4), Bstr(<<49>>)>>>>), Bstr(Seq0(32)), Bstr(Fill(1, n))>>)]
     [] id = 16 -> [kind |-> "sig", ext |-> <<>>, payload |-> <<1, 2>>, slots |-> <<n>>,
                    tree |-> Arr(<<BstrW(Map(<<AlgP(n)>>)), Map(<<<<UInt(11), Arr(<<CsA, CsB, CsB, CsA>>)>>>>), Bstr(Fill(1, n))>>)]
     [] id = 8 -> [kind |-> "sig", ext |-> <<>>, payload |-> <<1, 2>>, slots |-> <<n>>,
                   tree |-> Arr(<<BstrW(Map(<<AlgP(n), <<UInt(4), Bstr(<<49>>)>>>>)), Map(<<>>), Bstr(Fill(1, n))>>)]
 
-\* body_protected handed to Signature.Verify for a standalone COSE_Signature (id 8)
-StandaloneBodyProt == Bstr(<<161, 3, 0>>)          \* h'a10300'
+\* body_protected handed to Signature.Verify for a standalone COSE_Signature (ids 8, 16): h'a10300', length prefix spelled in 2 bytes
+StandaloneBodyProt == [Bstr(<<161, 3, 0>>) EXCEPT !.w = 1]
 
 \* all encoder choices at one node
 Choices(nd) ==
@@ -152,7 +155,7 @@ AltTbs(b, i) ==
        [] st.alt = "bodyprot" -> TbsOf(kd, Bytes, i, b.ext, b.payload, Bstr(<<>>))
 Emit == st.phase # 1 \/ (Mode = "mut" /\ ~st.mut) \/
   LET b == st.base IN
-  PrintT(<<"CASE", ToJson([id |-> st.id, kind |-> b.kind, wire |-> Bytes, ext |-> st.vext, payload |-> b.payload, mut |-> st.mut,
+  PrintT(<<"CASE", ToJson([id |-> st.id, henv |-> st.id = 17, kind |-> b.kind, wire |-> Bytes, ext |-> st.vext, payload |-> b.payload, mut |-> st.mut,
                            bodyprot |-> Enc(StandaloneBodyProt), sigop |-> st.sigop, alt |-> st.alt,
                            slots |-> [i \in 1..Len(b.slots) |-> [alg |-> 0 - 1 - b.slots[i], fill |-> 160 + i, n |-> SigLen(b.slots[i]),
                                                                 tbs |-> TbsOf(b.kind, Bytes, i, st.vext, b.payload, StandaloneBodyProt),
